@@ -117,3 +117,110 @@ class ValidateDataFrame(FrameContract):
 
 
 CONTRACTS = [ValidateDataFrame, ValidateFrame]
+
+
+class InputFileVerdictHistories(Contract):
+    """History independence at the level the user works at: whatever accepted calls an InputFile has
+    served (set_data_value on any parameter, whole-dictionary assignments, reading its validators or
+    data), its verdict on the next dictionary equals the verdict of a fresh InputFile brought to the
+    same form and values in one step -- and a rejected dictionary leaves data and forms unchanged."""
+    target = "geoh5py/ui_json/input_file.py::InputFile.set_data_value"
+    variant = "verdict-histories"
+    symbolic = False
+    has_native = True
+    props = ("C15",)
+    bounded_scope = ("an InputFile with two optional string parameters under a one_of rule and one typed integer parameter; histories of 0-4 accepted calls over "
+                     "{set_data_value on each parameter, whole-dictionary assignment, reading validators / data}; 6 candidate dictionaries judged after each history "
+                     "and compared with a fresh InputFile holding the same values (12 fixed + 30 seeded histories quick / 300 thorough)")
+
+    RULES = {"param_1": {"one_of": "filter parameter"}, "param_2": {"one_of": "filter parameter"}}
+    CANDIDATES = [
+        {"param_1": None, "param_2": None},
+        {"param_1": "a", "param_2": None},
+        {"param_1": None, "param_2": "b"},
+        {"param_1": "a", "param_2": "b"},
+        {"param_1": 1, "param_2": None},
+        {"count": "many"},
+    ]
+    STEPS = [("set", "param_1", "c"), ("set", "param_2", "b"), ("set", "param_1", None), ("set", "param_2", None), ("set", "count", 5), ("assign", {"param_1": "z", "param_2": None}, None),
+             ("assign", {"param_1": None, "param_2": "y"}, None), ("read", "validators", None), ("read", "data", None)]
+    FIXED = [[], [1], [0, 1], [1, 0], [2, 1], [1, 2], [4], [4, 1], [5, 1], [7, 1, 7], [8, 0, 1], [6, 0]]
+
+    def native_cases(self, tier, rng):
+        for h in self.FIXED:
+            yield {"history": h}
+        for _ in range(30 if tier == "quick" else 300):
+            yield {"history": [rng.randrange(len(self.STEPS)) for _ in range(rng.randint(1, 4))]}
+
+    def native_check(self, case):
+        import copy
+        import os
+        import shutil
+        import tempfile
+
+        from geoh5py.ui_json import InputFile
+        from geoh5py.workspace import Workspace
+
+        d = tempfile.mkdtemp()
+        try:
+            path = os.path.join(d, "p.geoh5")
+            Workspace.create(path).close()
+
+            def fresh(values=None):
+                form = {"optional": True, "enabled": False, "value": None}
+                ui = {"title": "demo", "geoh5": str(path), "param_1": dict(form, label="first"), "param_2": dict(form, label="second"), "count": {"label": "count", "value": 1}}
+                f = InputFile(ui_json=ui, validations=copy.deepcopy(self.RULES))
+                base = {"title": "demo", "geoh5": f.ui_json["geoh5"], "param_1": "a", "param_2": None, "count": 1}
+                base.update(values or {})
+                f.data = base
+                return f
+
+            def snap(f):
+                return ({k: v for k, v in f.data.items() if k != "geoh5"}, {k: dict(v) for k, v in f.ui_json.items() if isinstance(v, dict)})
+
+            def used():
+                f = fresh()
+                for i in case["history"]:
+                    kind, a, b = self.STEPS[i]
+                    try:
+                        if kind == "set":
+                            f.set_data_value(a, b)
+                        elif kind == "assign":
+                            dd = dict(f.data)
+                            dd.update(a)
+                            f.data = dd
+                        else:
+                            getattr(f, a)
+                    except Exception:
+                        pass  # a refused step is part of the history too
+                return f
+
+            def verdict(f, values):
+                dd = dict(f.data)
+                dd.update(values)
+                before = snap(f)
+                try:
+                    f.data = dd
+                except Exception as exc:
+                    return "rejected:" + type(exc).__name__, snap(f) == before
+                return "accepted", True
+
+            for cand in self.CANDIDATES:
+                u = used()
+                current = {k: v for k, v in u.data.items() if k in ("param_1", "param_2", "count")}
+                try:
+                    ref_file = fresh(current)
+                except Exception:
+                    continue  # the history ended in a state a fresh file cannot be given in one step: nothing to compare with
+                ref, _ = verdict(ref_file, cand)
+                got, untouched = verdict(u, cand)
+                if got != ref:
+                    return f"after history {[self.STEPS[i][:2] for i in case['history']]} (values {current}) the dictionary {cand} is {got}; a fresh InputFile holding the same values says {ref}"
+                if not untouched:
+                    return f"after history {[self.STEPS[i][:2] for i in case['history']]} the rejected dictionary {cand} changed the stored data or forms"
+            return None
+        finally:
+            shutil.rmtree(d, ignore_errors=True)
+
+
+CONTRACTS = CONTRACTS + [InputFileVerdictHistories]
